@@ -145,6 +145,22 @@ def eval_cut(case):
     flat = [x for g in idx for x in g]
     if len(set(flat)) != len(flat) or any(list(g) != sorted(g) for g in idx) or [g[0] for g in idx] != sorted(g[0] for g in idx):
         return f"index list is not a list of disjoint sorted groups ordered by smallest member: {idx}"
+    # the combined step must be the lumping its two parts describe: merge the cells the package itself selects, then delete
+    from molgri.molecules.rate_merger import determine_rate_cells_to_join, determine_rate_cells_with_too_high_energy
+    orc = Oracle(Q.toarray())
+    with quiet():
+        if case["lower"] is not None:
+            orc.merge([list(map(int, p)) for p in determine_rate_cells_to_join(H, E, bottom_treshold=case["lower"], T=300.0)])
+        if case["upper"] is not None:
+            orc.delete([int(c) for c in determine_rate_cells_with_too_high_energy(E, energy_limit=case["upper"], T=300.0)])
+    if [list(map(int, g)) for g in idx] != orc.groups:
+        return f"cut_and_merge: index list {[list(map(int, g)) for g in idx]} != groups {orc.groups} obtained by merging then deleting"
+    exp = orc.matrix()
+    Rd = R.toarray()
+    if exp.size:
+        off = ~np.eye(len(exp), dtype=bool)
+        if Rd.shape != exp.shape or not np.allclose(Rd[off], exp[off], rtol=1e-10, atol=1e-12):
+            return "cut_and_merge: off-diagonal entries are not the block sums of the groups in the returned index list"
     return None
 
 
